@@ -200,11 +200,19 @@ func runR2Tamper(b *harness.B, g G, sk types.PrivateKey, c r2TamperCase) {
 			b.Violate("C19/tamper/rhp2/write-after-close/"+class, "a write on the closed session succeeded", wit)
 			return
 		}
+	} else if k > 0 {
+		// a frame cut short after its first byte: the rest of the stream cannot be a frame boundary any more
+		if !closedAfter1 || pce == nil {
+			b.Violate("C19/tamper/rhp2/session-not-closed-after-truncation/"+class+"/"+path, fmt.Sprintf("a frame truncated at offset %d (%s) is detected (%v) but the session is not closed: IsClosed=%v PrematureCloseErr=%v", k, class, err1, closedAfter1, pce), wit)
+			return
+		}
+		b.Count("rhp2_truncated_frames_closing_the_session", 1)
 	} else {
+		// cut at the frame boundary: the peer hung up between two messages
 		if closedAfter1 {
-			b.Count("rhp2_unauthenticated_tamper_session_marked_closed", 1)
+			b.Count("rhp2_hangup_between_frames_session_marked_closed", 1)
 		} else {
-			b.Count("rhp2_unauthenticated_tamper_session_not_marked_closed", 1)
+			b.Count("rhp2_hangup_between_frames_session_not_marked_closed", 1)
 		}
 	}
 	b.Count("tamper_cases_detected", 1)
